@@ -345,7 +345,82 @@ func GenCase(r *rng.R) Case {
 		}
 		c.Reqs = append(c.Reqs, rq)
 	}
+	// the HISTORY dimension "the route table of a registered WebService changes between requests": a
+	// third of the histories on a filter with computed methods, a tenth of the others (drawn from a
+	// fork, so that the rest of the case is what it was without this dimension)
+	if rc := r.Fork(0xC4A9E); len(f.Methods) == 0 && rc.Chance(1, 3) || rc.Chance(1, 10) {
+		withChange(rc, &c, o)
+	}
 	return c
+}
+
+// withChange puts a change of the route table of a registered WebService (ws.Route after
+// Container.Add, or ws.RemoveRoute with dynamic routes) in front of a request of the history that,
+// mostly, repeats an earlier request or its URL; three times out of four the route is one whose method
+// is routed at that URL (asked of a container without filter). For "route" the container starts
+// without the route. Sometimes a later request is preceded by the inverse change.
+func withChange(r *rng.R, c *Case, o routing.Opts) {
+	type at struct{ si, k int }
+	var all []at
+	for si, s := range c.Table.Services {
+		for k := range s.Routes {
+			all = append(all, at{si, k})
+		}
+	}
+	if len(all) == 0 {
+		return
+	}
+	if len(c.Reqs) < 2 {
+		c.Reqs = append(c.Reqs, GenReq(r, o, c.Table, c.F))
+	}
+	i := 1 + r.Intn(len(c.Reqs)-1)
+	j := r.Intn(i)
+	switch r.Intn(4) {
+	case 0, 1:
+		c.Reqs[i] = c.Reqs[j]
+	case 2:
+		c.Reqs[i].R.Path = c.Reqs[j].R.Path
+	}
+	pick := all[r.Intn(len(all))]
+	if r.Chance(3, 4) {
+		if tc, tw, _, err := buildOne(c.Table, nil, false); err == nil {
+			p := &Pair{Twin: tc, twinW: tw}
+			var routed, asked []at
+			for _, a := range all {
+				m := c.Table.Services[a.si].Routes[a.k].Method
+				if st := p.Probe(c.Reqs[i], m); st != 404 && st != 405 {
+					routed = append(routed, a)
+					if m == first(c.Reqs[i].ACRM) {
+						asked = append(asked, a)
+					}
+				}
+			}
+			switch {
+			case len(asked) > 0 && r.Chance(2, 3):
+				pick = asked[r.Intn(len(asked))]
+			case len(routed) > 0:
+				pick = routed[r.Intn(len(routed))]
+			}
+		}
+	}
+	rd := c.Table.Services[pick.si].Routes[pick.k]
+	kind, inverse := "rmroute", "route"
+	if r.Chance(1, 2) {
+		kind, inverse = "route", "rmroute"
+		// the container is built without the route
+		tbl := routing.Config{Router: c.Table.Router, Services: append([]routing.Service{}, c.Table.Services...)}
+		rs := tbl.Services[pick.si].Routes
+		tbl.Services[pick.si].Routes = append(append([]routing.RouteDecl{}, rs[:pick.k]...), rs[pick.k+1:]...)
+		c.Table = tbl
+	}
+	c.Reqs[i].Change = &Change{Kind: kind, Svc: pick.si, Route: rd}
+	if i+1 < len(c.Reqs) && r.Chance(1, 3) {
+		k := i + 1 + r.Intn(len(c.Reqs)-i-1)
+		if r.Chance(1, 2) {
+			c.Reqs[k] = c.Reqs[i] // the whole request (a preflight is never a retried request: Req.Retry)
+		}
+		c.Reqs[k].Change = &Change{Kind: inverse, Svc: pick.si, Route: rd}
+	}
 }
 
 // ---- the small non-ASCII stream (real vs. twin only, no model) ----
